@@ -43,8 +43,15 @@ def isub? (s : String) : Option InitSub :=
   if s = "a" then some .absent else if s = "c" then some .coop else if s = "n" then some .noncoop
   else if s = "u" then some .unitImpl else none
 
+/-- the harness's processor behaviours (driver/props/c18.py: `BEHS`).  The model's state is the marks, so a processor
+that hands back a NEW profile object in which it also added (`a`), changed (`c`) or did not take over (`d`) some other
+value is `fresh`, one that does the same in place (`A`, `C`, `D`) is `inplace`; what happens to those other values is
+looked at by the oracle on the real objects, and for the re-use branch of `init_solve` by `refreshEntry`
+(ProcProg.lean) -/
 def beh? (s : String) : Option Beh :=
-  if s = "i" then some .inplace else if s = "f" then some .fresh else if s = "s" then some .same else none
+  if s = "i" ∨ s = "A" ∨ s = "C" ∨ s = "D" then some .inplace
+  else if s = "f" ∨ s = "a" ∨ s = "c" ∨ s = "d" then some .fresh
+  else if s = "s" then some .same else none
 
 def showOut : Out → String
   | .ok => "ok"
